@@ -209,8 +209,27 @@ class Ctx:
         try:
             mirdump.copy_crate(scratch)
             open(os.path.join(VERIF, '.cache', f'last_replay_{self.pid}.rs'), 'w').write(uses + "\n" + test_body)
-            with open(os.path.join(scratch, inject_into), 'a') as f:
-                f.write("\n#[cfg(test)]\n#[allow(unused_imports, dead_code, unused_variables, unused_mut)]\nmod verif_replay {\n" + uses + "\n" + test_body + "\n}\n")
+            modtxt = "\n#[cfg(test)]\n#[allow(unused_imports, dead_code, unused_variables, unused_mut)]\nmod verif_replay {\n" + uses + "\n" + test_body + "\n}\n"
+            if '::' in inject_into:
+                # inject inside an inline module:  path/to/file.rs::modname
+                fpath, modname = inject_into.split('::')
+                src = open(os.path.join(scratch, fpath)).read()
+                mm = re.search(r'\bmod ' + re.escape(modname) + r'\s*\{', src)
+                if not mm:
+                    raise Inconclusive(f"inline module {modname} not found in {fpath}")
+                depth, i = 0, mm.end() - 1
+                while True:
+                    if src[i] == '{':
+                        depth += 1
+                    elif src[i] == '}':
+                        depth -= 1
+                        if depth == 0:
+                            break
+                    i += 1
+                open(os.path.join(scratch, fpath), 'w').write(src[:i] + modtxt + src[i:])
+            else:
+                with open(os.path.join(scratch, inject_into), 'a') as f:
+                    f.write(modtxt)
             for prof in profiles:
                 cmd = ['cargo', 'test', '--offline', '--no-default-features', '--lib', '--manifest-path', os.path.join(scratch, 'Cargo.toml'),
                        '--target-dir', target] + (['--release'] if prof == 'release' else []) + ['verif_replay', '--', '--nocapture', '--test-threads', '1']
